@@ -24,3 +24,11 @@ Theorem C02_single_route_limits : forall d s p acc egr fresh r used,
   limits_ok_b d s p r = true.
 Proof. exact calc_single_limits. Qed.
 Print Assumptions C02_single_route_limits.
+
+From TrV Require Import Proofs.Compose.
+Theorem C02_alternatives_limits : forall d s p acc egr rs total,
+  wf_data_b d = true -> wf_tables_b d p acc egr = true -> wf_params_b p = true ->
+  alternatives d (conn_set d s) p acc egr = Ok (rs, total) ->
+  forall r, In r rs -> limits_ok_b d s p r = true.
+Proof. intros d s p acc egr rs total H1 H2 H3 H r Hr. exact (proj1 (proj2 (alternatives_all_ok d s p acc egr rs total H1 H2 H3 H r Hr))). Qed.
+Print Assumptions C02_alternatives_limits.
